@@ -210,6 +210,18 @@ func runC04(c *Ctx) {
 			c.Report(fn, "isVoted consults "+m, fn.Pos(), strings.Contains(have, m), "lookups: "+have)
 		}
 	}
+	// R04.4e: votes counted together with expels exclude the expelled nodes' own sign facts
+	c.Rule("R04.4e", "Dependence")
+	if fn := c.Need("isaac/states.extractExpelsFromBallot"); fn != nil {
+		if cl := c.ClosureWithCall(fn, "slices.IndexFunc(*)"); cl != nil {
+			c.RetIsCmp(cl, "sign facts of expelled nodes are filtered out of the expel count", "slices.IndexFunc(make([]base.SuffrageExpelFact), *)", "<", "0")
+			if inner := c.ClosureWithCall(cl, "sf.Node().Equal(*)"); inner != nil {
+				c.Exists(inner, "expelled node matched by the sign fact's node", c.ReturnsD(inner, 0, "sf.Node().Equal(j.Node())"), 1)
+			}
+		}
+		c.StoredIs(fn, "filtered sign facts are what is counted", c.StoresD(fn, "&var:m[1]"), 1, "util.FilterSlice(sfs, *)")
+		c.StoredIs(fn, "expel facts collected from the given expels", c.StoresD(fn, "&make([]base.SuffrageExpelFact)[ι]"), 1, "expels[ι].ExpelFact()")
+	}
 	// R04.5 ---------------------------------------------------------------------------------------
 	c.Rule("R04.5", "Dependence")
 	if fn := c.Need("isaac/states.(*Ballotbox).vote"); fn != nil {
